@@ -130,8 +130,14 @@ def r05_3(chk, P):
                 continue
             layout.compare_pair(chk, 'R05.3', P, w, r, pw, pr, Fw, Fr)
             # the branch condition must be the block flag on both sides
-            cw = [x[1] for x in pw if x[0] == 'I']
-            cr = [x[1] for x in pr if x[0] == 'I']
+            def flagcond(x):
+                # `if(!W){nothing read}else{reads}` is `if(W){reads}`: the condition under which the fields exist
+                c = x[1]
+                if isinstance(c, str) and c.startswith('!') and len(x) > 3 and not layout.clean(x[2]) and layout.clean(x[3]):
+                    return c[1:]
+                return c
+            cw = [flagcond(x) for x in pw if x[0] == 'I']
+            cr = [flagcond(x) for x in pr if x[0] == 'I']
             chk.ob('R05.3', w, f'{w}<->{r}:window-flag-condition', cw == cr and len(cw) == 1, Fw.where(),
                    f'writer condition {cw}, reader condition {cr}')
 
